@@ -568,7 +568,8 @@ def run(ctx):
     if kp is not None:
         vk = [bb for bb, t in kp.calls() if callee_key(t["callee"]).endswith("keys::validate_key")]
         d = kp.dominators(unwind=False)
-        others = [bb for bb, t in kp.calls() if callee_key(t["callee"]).endswith("PathBuf::push") or callee_key(t["callee"]).endswith("Path::join")]
+        others = [bb for bb, t in kp.calls() if callee_key(t["callee"]).endswith("PathBuf::push") or callee_key(t["callee"]).endswith("Path::join")
+                  or (t["callee"].get("method") == "extend" and "PathBuf" in callee_key(t["callee"]) + str((t["callee"].get("self_ty") or {}).get("s", "")))]
         ok = len(vk) == 1 and bool(others) and all(vk[0] in d[o] for o in others)
         if ok:
             br = [bb for bb, t in kp.calls() if t["callee"].get("method") == "branch"]
@@ -588,7 +589,43 @@ def run(ctx):
         errs = [bb for bb, t in vkb.calls() if callee_key(t["callee"]).endswith("InvalidStorageKeyError::new")]
         ok = len(ips) == 1 and len(errs) == 1 and vkb.in_loop(ips[0])
         det = f"is_plain_segment sites={len(ips)} (in the segment loop: {bool(ips) and vkb.in_loop(ips[0])}), error sites={len(errs)}"
-        if ok:
+        alls = []
+        if not ips:
+            # `key.split('/').all(is_plain_segment)`: the test handed to `all` as a function item or a one-call closure
+            for bb, t in vkb.calls():
+                if t["callee"].get("method") != "all" or vkb.blocks[bb].cleanup:
+                    continue
+                fi = any(a.get("k") == "const" and strip_generics(a.get("fndef") or "").endswith("keys::is_plain_segment") for a in t["args"])
+                for a in t["args"][1:]:
+                    l = op_local(a)
+                    for c in (vkb.local_ty(l).get("closures", []) if l is not None else []):
+                        cb = (prog.by_key.get(strip_generics(c)) or [None])[0]
+                        if cb is not None:
+                            cc = [t2 for _b2, t2 in cb.calls() if not cb.blocks[_b2].cleanup]
+                            if len(cc) == 1 and callee_key(cc[0]["callee"]).endswith("keys::is_plain_segment") and \
+                                    2 in Slice(cb).run(cc[0]["args"][0])["args"] and \
+                                    not any(blk.term["k"] == "switch" for blk in cb.blocks):
+                                fi = True
+                if fi:
+                    alls.append((bb, t))
+        if alls and len(alls) == 1 and len(errs) == 1:
+            abb, at = alls[0]
+            gs = switch_guards(vkb, errs[0])
+            okg = any(g["src"].get("kind") == "call" and g["src"].get("bb") == abb and g["allowed"] == {0} for g in gs)
+            sl = Slice(vkb).run(at["args"][0])
+            src = any(k.endswith("str::split") or "::split" in k for k, _, _ in sl["calls"]) and 1 in sl["args"]
+            from ..analysis import iter_chain, POSITIONAL_CUT
+            from ..evtflow import return_sites
+            chain = iter_chain(vkb, at["args"][0])
+            cut = sorted(set(chain) & POSITIONAL_CUT)
+            # Ok is returned only on the `all(..) == true` arm
+            oks = [bb for bb, path, st in return_sites(vkb) if path[:1] == ["Ok"]]
+            ok_guard = bool(oks) and all(any(g["src"].get("kind") == "call" and g["src"].get("bb") == abb and 0 not in g["allowed"]
+                                             for g in switch_guards(vkb, bb)) for bb in oks)
+            ok = okg and src and not cut and ok_guard
+            det = (f"all(is_plain_segment) over key.split: {src} (positional cuts {cut or 'none'}); error constructed exactly on its false arm: {okg}; "
+                   f"Ok only on its true arm: {ok_guard}")
+        elif ok:
             # false arm leads to the error construction and from there to return without re-entering the loop
             gs = switch_guards(vkb, errs[0])
             g = [g for g in gs if g["src"].get("kind") in ("call",) and g["src"].get("bb") == ips[0]
